@@ -77,7 +77,7 @@ fn eval(l: &mut Local, watch: &Watch, fam: &str, input: &[u8]) {
     let (cls, viol) = check_total(input, &got);
     l.outcome(&format!("{fam} {cls}"), || json!({"family": "bytes", "input": hex(input), "text": String::from_utf8_lossy(&input[..input.len().min(200)])}));
     for (k, d) in viol {
-        l.violation(&k, json!({"family": "bytes", "from": fam, "input": hex(input), "text": String::from_utf8_lossy(&input[..input.len().min(400)]), "why": d}));
+        crate::report(l, &k, || json!({"family": "bytes", "from": fam, "input": hex(input), "text": String::from_utf8_lossy(&input[..input.len().min(400)]), "why": d}));
     }
 }
 
@@ -320,7 +320,7 @@ pub fn run(ctx: &'static Ctx) -> ! {
         let (cls, viol) = check_total(input, &got);
         l.outcome(&format!("limits {name}: {cls}"), || json!({"family": "limit", "name": name, "len": input.len()}));
         for (k, d) in viol {
-            l.violation(&k, json!({"family": "limit", "name": name, "why": d}));
+            crate::report(l, &k, || json!({"family": "limit", "name": name, "why": d}));
         }
     });
 
